@@ -104,6 +104,12 @@ Proof.
   split; exact H.
 Qed.
 
+Lemma accept_reject_same : forall t e v,
+  sparse_validate t e v = dense_validate t e v /\
+  (1 <= e -> ((exists r, sparse_validate t e v = inr r) <-> valid_value t e v) /\
+             ((exists r, dense_validate t e v = inr r) <-> valid_value t e v)).
+Proof. intros t e v. split; [apply validate_same|apply accepts_iff_valid]. Qed.
+
 Example valid_value_ex : valid_value TFloat 3 (VSeq [CB true; CI 2; CF 20]) /\ ~ valid_value TInt 2 (VSeq [CI 1; CF 20]).
 Proof.
   split.
